@@ -16,7 +16,7 @@ Conventions
   positional decimal, `str::parse::<u32>` as the same with the range check, `str::parse::<f64>`
   only by *which texts it accepts* (`f64TextValid`) — the float value itself stays the text handed
   to the parser (`Token.floatLit text`), `char::is_alphabetic/is_numeric/is_uppercase/is_whitespace`
-  by the tables of Impl/UnicodeTables.lean, `String::into_bytes` as UTF-8 encoding.
+  by the tables of Impl/UnicodeTables.lean, `String::into_bytes` / `char::encode_utf8` as UTF-8 encoding.
 Core Lean only.
 -/
 import NoulithModel.Common
@@ -118,6 +118,13 @@ def utf8Encode (c : Char) : List Nat :=
   else [0xF0 + n / 262144, 0x80 + n / 4096 % 64, 0x80 + n / 64 % 64, 0x80 + n % 64]
 
 def utf8Len (c : Char) : Nat := (utf8Encode c).length
+
+/-- the bytes of a bytes literal: a character written as `\\xHH` is the single byte `HH`
+(`c as u32 as u8`), every other character its UTF-8 encoding.  `hex` flags the `\\xHH` characters. -/
+def bytesOf : List Char → List Bool → List Nat
+  | c :: cs, h :: hs => (if h then [c.toNat % 256] else utf8Encode c) ++ bytesOf cs hs
+  | c :: cs, [] => utf8Encode c ++ bytesOf cs []
+  | [], _ => []
 
 /-! ### `str::parse::<f64>` acceptance
 
@@ -244,6 +251,59 @@ def lexStr (e : Char) : List Char → StrRes
             else strFail .uTooBig (uAfter cs1)
         else strFail .unknownEscape cs1
     else (lexStr e cs).push c
+termination_by cs => cs.length
+decreasing_by
+  all_goals simp_wf
+  all_goals (try omega)
+  · have h3 := uAfter_length cs1
+    rw [_hafter] at h3; simp at h3; omega
+  · have h3 := uAfter_length cs1
+    omega
+
+/-- the second result of `lex_simple_string_after_start_hex`: for every character of the returned
+string, was it written as a `\xHH` escape?  (The Rust records the byte offsets of those characters
+in `hex_at` in the same loop; a flag per character is the same information.  Same recursion as
+`lexStr`, so the flags line up with `(lexStr e cs).acc`.) -/
+def lexStrHex (e : Char) : List Char → List Bool
+  | [] => []
+  | c :: cs =>
+    if c = e then []
+    else if c = '\\' then
+      match cs with
+      | [] => []
+      | c1 :: cs1 =>
+        if c1 = 'n' then false :: lexStrHex e cs1
+        else if c1 = 'r' then false :: lexStrHex e cs1
+        else if c1 = 't' then false :: lexStrHex e cs1
+        else if c1 = '0' then false :: lexStrHex e cs1
+        else if c1 = '\\' ∨ c1 = '\'' ∨ c1 = '"' then false :: lexStrHex e cs1
+        else if c1 = 'x' then
+          match cs1 with
+          | [] => []
+          | h1 :: cs2 =>
+            match toDigit h1 16 with
+            | none => []
+            | some d1 =>
+              match cs2 with
+              | [] => []
+              | h2 :: cs3 =>
+                match toDigit h2 16 with
+                | none => []
+                | some d2 =>
+                  if validScalar (d1 * 16 + d2) then true :: lexStrHex e cs3 else []
+        else if c1 = 'u' then
+          match uExpected cs1 with
+          | some close =>
+            match _hafter : uAfter cs1 with
+            | [] => []
+            | c2 :: cs3 =>
+              if c2 = close then
+                if validScalar (uValue cs1) then false :: lexStrHex e cs3 else []
+              else []
+          | none =>
+            if validScalar (uValue cs1) then false :: lexStrHex e (uAfter cs1) else []
+        else []
+    else false :: lexStrHex e cs
 termination_by cs => cs.length
 decreasing_by
   all_goals simp_wf
@@ -400,7 +460,7 @@ def lexIdentTail (acc : List Char) (cs1 : List Char) : Step :=
     match cs1 with
     | d :: cs2 =>
       if d = '\'' ∨ d = '"' then
-        ⟨(lexStr d cs2).pre ++ [.bytesLit ((lexStr d cs2).acc.flatMap utf8Encode)], (lexStr d cs2).rest, false⟩
+        ⟨(lexStr d cs2).pre ++ [.bytesLit (bytesOf (lexStr d cs2).acc (lexStrHex d cs2))], (lexStr d cs2).rest, false⟩
       else if d = '[' then ⟨[.bLeftBracket], cs2, false⟩
       else ⟨[.ident acc], cs1, false⟩
     | [] => ⟨[.ident acc], cs1, false⟩
